@@ -355,13 +355,21 @@ def translate(repo: Path):
     view, subs, cleanup = canonical_view(repo)
     try:
         text, info = _translate(view)
+        if info["unrecognised"] and REF.is_dir() and (REF / "src").is_dir():
+            # an unrecognised fragment keeps the value it has on the reference sources (= the tree the recognisers were last
+            # refreshed against) instead of a fixed default: the tie is reported broken either way, but the model that the
+            # search and the finding classes run against then still describes the code as it was, so a harmless rewrite
+            # of a recognised function cannot turn a listed finding into a violation with a concrete input
+            _, ref_info = _translate(REF, fallback=None)
+            ref_values = {n: d["value"] for n, d in ref_info["fragments"].items() if d["status"] == "ok"}
+            text, info = _translate(view, fallback=ref_values)
     finally:
         cleanup()
     info["alpha_equivalent_functions_shown_as_reference"] = subs
     return text, info
 
 
-def _translate(repo: Path):
+def _translate(repo: Path, fallback=None):
     dup = [n for n in {f.coq_name for f in FRAGMENTS} if sum(1 for f in FRAGMENTS if f.coq_name == n) > 1]
     if dup:
         raise RuntimeError(f"two fragments emit the same Coq name: {dup}")
@@ -404,7 +412,7 @@ def _translate(repo: Path):
             status, why = "unrecognised", f"cannot read/parse {frag.file}: {e}"
         if status != "ok":
             unrecognised.append({"fragment": frag.name, "file": frag.file, "props": frag.props, "why": why})
-            value = frag.expected
+            value = fallback[frag.name] if fallback and frag.name in fallback else frag.expected
         values[frag.coq_name] = value
         details[frag.name] = {"file": frag.file, "props": frag.props, "status": status, "value": value, "coq": frag.coq_name}
         term = frag.printer(value) if frag.printer else str(value)
